@@ -96,7 +96,7 @@ func runCaseRealtime(c *Case) Verdict {
 	select {
 	case v := <-done:
 		return v
-	case <-time.After(150 * time.Second):
+	case <-time.After(400 * time.Second):
 		return Verdict{Kind: "inconclusive", Prop: c.Prop, Reason: "real-time confirmation did not finish"}
 	}
 }
